@@ -11,12 +11,12 @@ CHECKS = {
     # id: (level, technique, level text, level note, design section)
     "C15": ("exploration",
             "exhaustive enumeration of small shapes x ranges + Hypothesis random shapes, against an independent DP oracle for the minimum slab count, view/partition predicates and FSDP-vs-HSDP differential",
-            "Every shape of order 0..5 with numel<=24 (quick) / 48 (thorough) and every range is enumerated; beyond that random shapes up to dims 12. Each result is checked for view-ness, ordered partition, slab validity, minimal piece count (DP) and agreement of both copies.",
+            "Every shape of order 0..5 with numel<=24 (quick) / 48 (thorough) and every range is enumerated; beyond that random shapes up to dims 64, zero-size shapes, strided shards, and an enumeration of every trailing slab size 2..1100 on tensors of ~3.5M elements with ranges ending on slab boundaries. Each result is checked for view-ness, ordered partition, slab validity, minimal piece count (DP) and agreement of both copies.",
             "Trusts torch storage/offset introspection and the harness's own DP; no claim beyond the enumerated/random bounds.",
             "6/C15"),
     "C01": ("exploration",
             "Hypothesis rule-based state machine over a live optimizer, checked after every step against an independent float64 one-step-ahead reference model computed from the optimizer's own previous state, plus bitwise held-fixed invariants and a multi-group vs independent-optimizers metamorphic differential",
-            "Generated histories (configuration x shapes x gradient/mask/schedule sequence) are run through the real optimizer; every block's factor matrices, filtered gradient, grafting accumulator, momentum and parameter delta are compared with the documented recurrences within a stated running rounding bound, inverse roots with a float64 spectral oracle on refresh steps and bitwise otherwise. Exploration, not proof: bounded orders/sizes/history lengths.",
+            "Generated histories (configuration x shapes x gradient/mask/schedule sequence, incl. mixed parameter dtypes per group, tensor-valued learning rates edited in place and rollbacks of a checkpoint into the live optimizer) are run through the real optimizer; every block's factor matrices, filtered gradient, grafting accumulator, momentum and parameter delta are compared with the documented recurrences within a stated running rounding bound, inverse roots with a float64 spectral oracle on refresh steps and bitwise otherwise. Exploration, not proof: bounded orders/sizes/history lengths.",
             "Trusts the harness's reference model (written from the docstring/README, no repository imports) and float64 torch.linalg; iterative solvers' accuracy is decided in C10, not here.",
             "6/C01"),
     "C03": ("exploration",
@@ -26,17 +26,17 @@ CHECKS = {
             "6/C03"),
     "C04": ("exploration",
             "Hypothesis rule-based state machine over gradient-presence histories with forced equal-shaped parameters; bitwise untouched-state invariant after every step, step-counter model, and per-block one-step-ahead reference to expose cross-wired buffers",
-            "Histories of presence masks (stay/flip/random/all-absent/all-present, momentum scheduled to zero and back) over parameter sets where misalignment would not raise; invariants are bitwise.",
+            "Histories of presence masks (stay/flip/swap/random/all-absent/all-present, momentum scheduled to zero and back) over parameter sets where misalignment would not raise; invariants are bitwise. Extra streams: groups with hundreds of blocks or > 64 parameters, and 'marathon' histories with more than a thousand consecutive presence changes, every step checked.",
             "Reference model of C01; reachability walk covers dicts, sequences and module-like state objects.",
             "6/C04"),
     "C13": ("fault_enumeration",
-            "model-based fault injection: Hypothesis state machine drives the real optimizer while the matrix routine is wrapped from the harness; an outcome script (ok/raise/NaN/Inf) per factor per refresh is checked against a per-block failure-counter model; invariants on raise (no parameter modified) and on stored matrices (finite)",
+            "model-based fault injection: Hypothesis state machine drives the real optimizer while the matrix routine is wrapped from the harness; an outcome script (ok/raise before the routine/raise at the j-th LAPACK call inside the routine/NaN/Inf) per factor per refresh is checked against a per-block failure-counter model; invariants on raise (no parameter modified) and on stored matrices (finite)",
             "For every generated history of gradient-presence masks and outcome scripts the predicted raise/no-raise and exception type must match at every step; tolerated failures must keep the previous matrix bitwise, store the successful ones, and log a warning naming the factor. Fault scripts are enumerated by generation, not exhaustively.",
             "Fault injection by unittest.mock on the names imported into shampoo_preconditioner_list; call order = parameters, blocks, factors of blocks with a gradient.",
             "6/C13"),
     "C09": ("fault_enumeration",
             "round-trip differential with enumerated crash points: for every stop step k of every generated history the saved (torch.save/load) distributed state dict is loaded into a fresh optimizer and the continuation is compared bitwise with the uninterrupted run; negative loads must raise",
-            "Every crash point k = 0..T of each generated history (configuration x gradient/mask/schedule sequence) is exercised; parameters and all state tensors must be bit-for-bit equal after every remaining step; structural key-count check; three kinds of corrupted checkpoints must be rejected.",
+            "Every crash point k = 0..T of each generated history (configuration x gradient/mask/schedule sequence) is exercised; parameters and all state tensors must be bit-for-bit equal after every remaining step; structural key-count check; four kinds of corrupted checkpoints (missing entry, missing sub-tree, unknown parameter, different group partition) must be rejected; crash points up to 2053 steps for half-precision parameters.",
             "Serial (non-DTensor) state layout; torch.save/load assumed bit-exact; the DDP/DTensor layout is exercised by the simulator-based checks.",
             "6/C09"),
     "C16": ("exploration",
